@@ -1,4 +1,5 @@
 import Andes.Proofs.Store
+import Andes.Proofs.StoreCsv
 /-!
 # C15 — stored and exported results are the simulated values, complete and labelled
 
@@ -270,5 +271,41 @@ theorem find_sound (names pats : List String) (i : Nat) (h : i ∈ findNames nam
   exact ⟨hj, q, hq, hin⟩
 
 end labels
+
+end Andes.Store
+
+/-! ## csv replay (`TDS.run(from_csv=…)`), exact rational times -/
+namespace Andes.Store
+
+/-- **csv replay, what is reproduced**: for every csv with at least three rows whose time column is
+non-negative and strictly increasing, the replay terminates, and from the third row on every csv row `k`
+is an accepted step with stamp `τ_k` carrying exactly row `k`.  What C15 asks in addition fails for EVERY
+such csv (see the closed form): row 0 is never stored, row 1 is stored under `t = 0`, stamp `τ_1` is missing. -/
+theorem csv_replay_reproduces_partial (times : List ℚ) (hN : 3 ≤ times.length)
+    (hinc : times.Pairwise (· < ·)) (h0 : 0 ≤ times.getD 0 0) :
+    (csvSteps times).2 = false ∧
+    (csvSteps times).1.drop 1 = (List.range' 2 (times.length - 2)).map (fun k => (times.getD k 0, k)) ∧
+    (csvSteps times).1.head? = some (0, 1) := by
+  rw [csvSteps_closed times hN hinc h0]; simp
+
+example : (3 : Nat) ≤ ([0, 1/10, 2/10, 3/10] : List ℚ).length ∧
+    ([0, 1/10, 2/10, 3/10] : List ℚ).Pairwise (· < ·) ∧ (0 : ℚ) ≤ ([0, 1/10, 2/10, 3/10] : List ℚ).getD 0 0 := by
+  refine ⟨by decide, ?_, by norm_num⟩
+  simp only [List.pairwise_cons, List.mem_cons, List.not_mem_nil, or_false, forall_eq_or_imp, forall_eq,
+    List.Pairwise.nil, and_true, IsEmpty.forall_iff, implies_true]
+  norm_num
+
+/-- DEFECT: a 4-row csv replays as 3 rows — row 0 lost, row 1 relabelled `t = 0`, stamp `1/10` missing -/
+theorem csv_replay_drops_row0_and_shifts_row1 :
+    csvSteps ([0, 1/10, 2/10, 3/10] : List ℚ) = ([(0, 1), (2/10, 2), (3/10, 3)], false) := by
+  rw [csvSteps_closed _ (by decide) (by
+    simp only [List.pairwise_cons, List.mem_cons, List.not_mem_nil, or_false, forall_eq_or_imp, forall_eq,
+      List.Pairwise.nil, and_true, IsEmpty.forall_iff, implies_true]
+    norm_num) (by norm_num)]
+  simp [List.range']
+
+/-- DEFECT: a two-row csv makes the replay loop run forever (`h = 0` after the only row, `t = 0 < tf`) -/
+theorem csv_replay_two_rows_never_ends : (csvSteps ([0, 1/10] : List ℚ)).2 = true := by
+  norm_num [csvSteps, csvLoop, csvInit, csvCalcH]
 
 end Andes.Store
